@@ -386,8 +386,46 @@ def run_chain(ending, dmax, ctx):
                           'wall=%.3f' % dt)
 
 
+DEEP = (200, 250, 300, 400)
+
+
+def run_deep(ending, ctx):
+    """Acyclic chains deeper than the interpreter's recursion capacity: the
+    statement does not promise that they evaluate, but whatever happens must
+    not be reported as a cycle."""
+    import sys
+    old_limit = sys.getrecursionlimit()
+    sys.setrecursionlimit(1000)        # the interpreter's default
+    try:
+        _run_deep(ending, ctx)
+    finally:
+        sys.setrecursionlimit(old_limit)
+
+
+def _run_deep(ending, ctx):
+    for d in DEEP:
+        cells = chain_model(d, ending)
+        key = 'C06/deep/%s/d=%d' % (ending, d)
+        inputs = {'kind': 'deep', 'ending': ending}
+        model = lib.compile_dict(cells)
+        try:
+            with lib.time_limit(30):
+                got, _ = cycle_obs(lib.Evaluator(model).evaluate,
+                                   'Sheet1!C1')
+        except lib.CaseTimeout:
+            got = 'timeout'
+        lib.clear_caches()
+        ctx.count('transitions')
+        obs = 'cycle-report' if got == 'cycle-report' else 'no-cycle-report'
+        ctx.check(key, obs, 'no-cycle-report',
+                  ['chain', 'deep-acyclic', 'ending:' + ending], inputs, True,
+                  'outcome=%s' % got)
+
+
 def plan(tier):
     shards = []
+    for ending in ('value', 'unknown-function'):
+        shards.append({'kind': 'deep', 'ending': ending, 'weight': 40})
     for n, base in ((1, 3), (2, 3), (3, 3)):
         total = base ** (n * n)
         step = 250
@@ -445,6 +483,8 @@ def _run_shard(shard, ctx):
             ctx.sample({'n': shard['n'], 'cells': {
                 cell(i): formula_direct(adj[i], i)
                 for i in range(shard['n'])}})
+    elif shard['kind'] == 'deep':
+        run_deep(shard['ending'], ctx)
     elif shard['kind'] == 'sparse5':
         combos = itertools.islice(
             itertools.combinations(range(25), shard['k']),
@@ -467,6 +507,8 @@ def replay(inputs, ctx):
     k = inputs['kind']
     if k == 'shard':
         run_shard(inputs['shard'], ctx)
+    elif k == 'deep':
+        run_deep(inputs['ending'], ctx)
     elif k == 'direct':
         run_graph('direct', inputs['n'], inputs['base'], inputs['code'], ctx)
     elif k == 'range':
